@@ -45,10 +45,16 @@ type c30Case struct {
 	Schedule []int  `json:"chunk_schedule"`
 	Prev     bool   `json:"key_has_previous_content"`
 	Mut      string `json:"mutation,omitempty"`
+	// DeclMixed: the x-amz-trailer request header names the checksum in mixed case (header names are case-insensitive)
+	DeclMixed bool `json:"trailer_declared_in_mixed_case,omitempty"`
 }
 
 func (c c30Case) String() string {
-	return fmt.Sprintf("%s %s/%s size=%d chunks=%v prev=%v mut=%s", c.Auth, c.Mode, c.Algo, c.Size, c.Schedule, c.Prev, c.Mut)
+	decl := ""
+	if c.DeclMixed {
+		decl = " trailer-declared-in-mixed-case"
+	}
+	return fmt.Sprintf("%s %s/%s size=%d chunks=%v prev=%v mut=%s%s", c.Auth, c.Mode, c.Algo, c.Size, c.Schedule, c.Prev, c.Mut, decl)
 }
 
 func (c c30Case) signedRequest() bool { return c.Auth == c30AuthSigned || c.Auth == c30AuthOff }
@@ -330,7 +336,11 @@ func c30Put(c c30Case, key string, now time.Time) (wire []byte, payload []byte, 
 	req.Header.Set("X-Amz-Content-Sha256", st.Mode)
 	req.Header.Set("X-Amz-Decoded-Content-Length", strconv.Itoa(len(payload)))
 	if st.Algo != "" {
-		req.Header.Set("X-Amz-Trailer", "x-amz-checksum-"+st.Algo)
+		decl := "x-amz-checksum-" + st.Algo
+		if c.DeclMixed {
+			decl = "X-Amz-Checksum-" + strings.ToUpper(st.Algo[:1]) + st.Algo[1:]
+		}
+		req.Header.Set("X-Amz-Trailer", decl)
 	}
 	if c.signedRequest() {
 		if c30IsV4a(st.Mode) {
@@ -508,6 +518,10 @@ func c30Groups(quick bool) []c30Case {
 					for _, prev := range []bool{false, true} {
 						out = append(out, c30Case{Auth: auth, Mode: m.mode, Algo: m.algo, Size: size, Schedule: sch, Prev: prev})
 					}
+					// the trailer declared in mixed case in the request header (crc32 and sha256; thorough: all)
+					if m.algo != "" && (!quick || m.algo == "crc32" || m.algo == "sha256") && size > 0 && size <= 8192 {
+						out = append(out, c30Case{Auth: auth, Mode: m.mode, Algo: m.algo, Size: size, Schedule: sch, Prev: true, DeclMixed: true})
+					}
 				}
 			}
 		}
@@ -670,7 +684,7 @@ func TestC30(t *testing.T) {
 	}
 	run.Cov["evaluations"] = evaluations
 	run.Cov["distinct_nontrivial"] = len(distinct)
-	run.Cov["rule"] = "baselines = {auth-on signed, anonymous, auth-off signed, auth-off plain} x {HMAC-signed chunks, HMAC-signed chunks+trailer x 5 checksum algorithms, ECDSA(SigV4a)-signed chunks, ECDSA-signed chunks+trailer x {crc32, sha256} (thorough: x 5), unsigned chunks+trailer x 5} (anonymous: unsigned only) x payload sizes {0,1,10,8192,65537} (thorough: also 2,100,16384) x chunk schedules {one chunk, 5+rest, all 1-byte, 8 KiB, mixed} x {key new, key has previous content}; " +
+	run.Cov["rule"] = "baselines = {auth-on signed, anonymous, auth-off signed, auth-off plain} x {HMAC-signed chunks, HMAC-signed chunks+trailer x 5 checksum algorithms, ECDSA(SigV4a)-signed chunks, ECDSA-signed chunks+trailer x {crc32, sha256} (thorough: x 5), unsigned chunks+trailer x 5} (anonymous: unsigned only) x payload sizes {0,1,10,8192,65537} (thorough: also 2,100,16384) x chunk schedules {one chunk, 5+rest, all 1-byte, 8 KiB, mixed} x {key new, key has previous content} (+ trailer name declared in mixed case in x-amz-trailer); " +
 		"every baseline of the mutation subset x the catalogue of c30Mutations (payload byte first/middle/last, chunk signature first/final (first digit and middle digit), chunk size +1/-1, final chunk size 1, trailer checksum (other value; same letters in the other case), trailer signature, trailer removed / other algorithm, missing final chunk, cut at chunk boundary, cut mid chunk, extra chunk, extra bytes after end, garbage body, empty body). " +
 		"Each case = PUT through server.SetupServer then GET; judged by the harness' reference decoder. Non-trivial = everything but the empty payload without trailer; distinct = distinct case tuples"
 	run.Cov["baseline_groups"] = len(groups)
